@@ -311,6 +311,13 @@ impl FetchState {
                 };
                 log::trace!(target: "fetch", "{sigrefs_at:?}");
                 self.run_stage(handle, handshake, &sigrefs_at)?;
+                // N.b. the `rad/sigrefs` will be updated to the
+                // announced `Oid`s, so these are the tips that must
+                // be loaded, verified, and validated, regardless of
+                // what the remote advertised.
+                for RefsAt { remote, at } in &refs_at {
+                    self.sigrefs.insert(*remote, *at);
+                }
                 let remotes = refs_at.iter().map(|r| &r.remote);
 
                 let signed_refs = sigrefs::RemoteRefs::load(&self.as_cached(handle), remotes)?;
